@@ -63,6 +63,10 @@ pub struct CliCase {
     /// C19: only check the stored schema / field count
     #[serde(default)]
     pub schema_only: bool,
+    /// run the conversions through the built multicall binary (`bigtools <subcommand> ...`) as subprocesses
+    /// (real threads for -t N: uncontrolled; covers the dispatch in bin/bigtools.rs)
+    #[serde(default)]
+    pub via_binary: bool,
 }
 
 pub fn gen_cli(rng: &mut Rng, prop: &str) -> CliCase {
@@ -160,6 +164,7 @@ pub fn gen_cli(rng: &mut Rng, prop: &str) -> CliCase {
             Sched::Calm
         },
         schema_only: prop == "C19",
+        via_binary: prop == "C16" && rng.chance(1, 10),
     }
 }
 
@@ -365,8 +370,24 @@ fn run_cli_inner(c: &CliCase, _st: &mut RunStats) -> Verdict {
         }
         None => None,
     };
+    let binary = if c.via_binary { std::env::var("VERIF_BIGTOOLS_BIN").ok().filter(|p| Path::new(p).exists()) } else { None };
+    let run_binary = |argv: &[String]| -> Result<(), String> {
+        // `bigtools <subcommand> <args>`: the tool name becomes the subcommand
+        let bin = binary.as_ref().unwrap();
+        let out = std::process::Command::new(bin).args(argv).output().map_err(|e| format!("cannot run {}: {}", bin, e))?;
+        if out.status.success() {
+            Ok(())
+        } else {
+            Err(format!("exit status {:?}: {}", out.status.code(), String::from_utf8_lossy(&out.stderr).chars().take(300).collect::<String>()))
+        }
+    };
+    if binary.is_some() {
+        *_st.counters.entry("via_multicall_binary(uncontrolled)".into()).or_insert(0) += 1;
+    }
     // forward conversion
     let r = match c.kind {
+        Kind::Wig if binary.is_some() => run_binary(&write_argv(c, "bedgraphtobigwig", &input, &sizes, &big, None)),
+        Kind::Bed if binary.is_some() => run_binary(&write_argv(c, "bedtobigbed", &input, &sizes, &big, sqlfile.as_deref())),
         Kind::Wig => {
             let argv = write_argv(c, "bedgraphtobigwig", &input, &sizes, &big, None);
             match parse_args::<bigtools::utils::cli::bedgraphtobigwig::BedGraphToBigWigArgs>(&argv) {
@@ -432,6 +453,8 @@ fn run_cli_inner(c: &CliCase, _st: &mut RunStats) -> Verdict {
     }
     // back conversion
     let r = match c.kind {
+        Kind::Wig if binary.is_some() => run_binary(&read_argv(c, "bigwigtobedgraph", &big, &back)),
+        Kind::Bed if binary.is_some() => run_binary(&read_argv(c, "bigbedtobed", &big, &back)),
         Kind::Wig => {
             let argv = read_argv(c, "bigwigtobedgraph", &big, &back);
             match parse_args::<bigtools::utils::cli::bigwigtobedgraph::BigWigToBedGraphArgs>(&argv) {
